@@ -5,14 +5,14 @@ import random, itertools, collections
 PID = 'C11'
 HEADER = []
 T0 = 2000000000
-RULE = ('random zone trees (depth 1-4, 1-2 endpoints per zone, shuffled endpoint names, 0-2 global zones) x local identity x '
+RULE = ('activation-order family: chains of depth 5-12 with side branches (and random trees), Zone::OnAllConfigLoaded re-run for all zones top-down / bottom-up / in random order, ancestor chains read back and relay steps routed over them; random zone trees (depth 1-4, 1-2 endpoints per zone, shuffled endpoint names, 0-2 global zones) x local identity x '
         'connectivity row (none/all/related/random, optional second older connection) x origin (local, received from a connected '
         'peer through the real JsonRpcConnection::MessageHandler with every claimed originZone, hand-made MessageOrigin, anonymous client) '
         'x target (Host in any zone, the Zone object itself, CheckCommand in a global zone, no security object) x log flag; plus a '
         'systematic family on the 2/2/2 chain with one global zone: every identity, every subset of directly related endpoints, '
         'every connected sender, every claimed origin zone, every target. non-trivial = at least one step that sends or persists; '
         'distinct = distinct script text')
-TRUSTED = ['model: coq/Route/RtModel.v (transcription of ApiListener::SyncRelayMessage, RelayMessageOne, GetMaster, '
+TRUSTED = ['model: coq/Route/RtModel.v, RtLoad.v (transcription of ApiListener::SyncRelayMessage, RelayMessageOne, GetMaster, Zone::OnAllConfigLoaded, '
            'JsonRpcConnection::MessageHandler origin construction, Zone::CanAccessObject/IsChildOf)',
            'harness fixture harness/ops_rt.cpp: ApiListener constructed without PKI/sockets, m_Instance/identity/m_LocalEndpoint set per step, '
            'JsonRpcConnection objects over unconnected streams inserted into Endpoint::m_Clients, posted sends run by polling a harness-owned io_context',
@@ -163,9 +163,53 @@ def chain_family(names, per_case=60):
     return cases
 
 
+def reload_line(rnd, t):
+    """an activation order for Zone::OnAllConfigLoaded: top-down, bottom-up or random"""
+    n = len(t.zones)
+    depth = {}
+    for i, (p, g, eps) in enumerate(t.zones):
+        depth[i] = 1 if p is None else depth[p] + 1
+    r = rnd.random()
+    if r < 0.3:
+        order = sorted(range(n), key=lambda z: (depth[z], z))
+    elif r < 0.65:
+        order = sorted(range(n), key=lambda z: (-depth[z], -z))
+    else:
+        order = list(range(n)); rnd.shuffle(order)
+    return 'rt_reload order=' + '.'.join(map(str, order))
+
+
+def deep_topo(rnd):
+    """a long chain (depth 5-12) with side branches: the ancestor chain construction is what matters here"""
+    d = rnd.randint(5, 12)
+    zones = [[None, False, None]]
+    for i in range(1, d):
+        zones.append([i - 1, False, None])
+    for _ in range(rnd.randint(0, 3)):
+        zones.append([rnd.randrange(0, len(zones)), False, None])
+    # renumber randomly but parents-first (the model numbers zones so that parents come first)
+    ids = rnd.sample(range(1, 90), 2 * len(zones))
+    k = 0
+    for z in zones:
+        n = rnd.choice((1, 2))
+        z[2] = ids[k:k + n]; k += n
+    if rnd.random() < 0.5:
+        zones.append([None, True, []])
+    return Topo([tuple(z) for z in zones])
+
+
 def generate(seed, tier):
     rnd = random.Random(seed)
     cases = []
+    nload = {'quick': 400, 'thorough': 4000, 'search': 1000}.get(tier, 400)
+    for i in range(nload):
+        t = deep_topo(rnd) if rnd.random() < 0.6 else rand_topo(rnd)
+        lines = ['now %d' % (T0 + rnd.randrange(0, 100000)), t.line()]
+        for _ in range(rnd.randint(1, 3)):
+            lines.append(reload_line(rnd, t))
+            for _ in range(rnd.randint(1, 4)):
+                lines.append(step_line_safe(rnd, t))
+        cases.append({'lines': lines, 'tags': {'family': 'activation-order'}})
     nrand = {'quick': 2500, 'thorough': 25000, 'search': 6000}.get(tier, 2500)
     for i in range(nrand):
         t = rand_topo(rnd)
@@ -192,6 +236,10 @@ def _steps(impl_lines):
     return [l for l in impl_lines if l.startswith('rt ')]
 
 
+def _count(cases, op):
+    return sum(1 for cs in cases for l in cs['lines'] if l.startswith(op))
+
+
 def nontrivial(case, impl_lines):
     return any(('sent=-' not in l) or ('persist=1' in l) for l in _steps(impl_lines))
 
@@ -200,7 +248,7 @@ def classify(case, detail, impl_lines):
     d = detail or ''
     if 'crash' in d or 'missing-observation' in d or 'malformed' in d:
         return 'crash'
-    for k in ('send-to-ineligible', 'foreign-zone-entered-twice', 'persist-decision', 'withheld', 'log-position',
+    for k in ('ancestor-chain', 'send-to-ineligible', 'foreign-zone-entered-twice', 'persist-decision', 'withheld', 'log-position',
               'origin-zone-construction', 'originZone-stamp', 'duplicate-message', 'stale-connection', 'generator-precondition'):
         if k in d:
             return k
@@ -226,4 +274,5 @@ def extra_stats(cases, impl):
             if 'skip=-' not in l: c['steps_with_skipped_endpoints'] += 1
             if '*1' in l.split('sent=')[1].split()[0]: c['steps_entering_foreign_zone'] += 1
             if ' fz=z' in l: c['steps_with_origin_zone'] += 1
+    c['reloads'] = _count(cases, 'rt_reload')
     return dict(c)
